@@ -755,3 +755,10 @@ pub fn verif_default_operators(
 ) -> Vec<(TargetSearchOperator, String, Float)> {
     dynamic::get_operators(problem, environment)
 }
+
+/// Verification hook: the diversification operators of the default heuristic (redistribute, sequence local
+/// search, infeasible search with repair) as one weighted operator, exactly as the heuristic uses them.
+#[cfg(reinterpretcat_vrp_verif)]
+pub fn verif_default_diversify_operators(problem: Arc<Problem>, environment: Arc<Environment>) -> Vec<TargetSearchOperator> {
+    create_diversify_operators(problem, environment)
+}
